@@ -130,7 +130,7 @@ impl Property for C04 {
          oracle = exact simultaneous composition; reference evaluator with topological dependency evaluation; non-trivial = >=2 replacements with one of degree>=1, or chain length>=2, or cyclic/dangling graph; distinct = sha256(case)"
     }
     fn required_labels(&self) -> Vec<String> {
-        ["mode=function", "mode=instance", "mode=graph", "mode=log-encode", "simultaneous-overlap", "chain", "cycle", "dangling", "self-loop", "removed-constraint", "all-orders-seen", "two-substitute-calls", "n=5", "regime=general", "regime=dyadic", "renaming-map", "renaming-target-is-a-key", "replaced-variable-had-a-recorded-value", "history-after-substitute", "history=penalty-method"]
+        ["mode=function", "mode=instance", "mode=graph", "mode=log-encode", "simultaneous-overlap", "chain", "cycle", "dangling", "self-loop", "removed-constraint", "all-orders-seen", "two-substitute-calls", "n=5", "regime=general", "regime=dyadic", "renaming-map", "renaming-target-is-a-key", "replaced-variable-had-a-recorded-value", "history-after-substitute", "history=penalty-method", "empty-replacement-map"]
             .iter()
             .map(|s| s.to_string())
             .collect()
@@ -169,7 +169,13 @@ impl C04 {
     fn function_level(&self, t: &mut Tape, ctx: &mut Ctx, regime: Regime) -> PResult {
         ctx.label("mode=function");
         let ids = gen_ids(t, 5);
-        let nrep = 1 + t.choice(4.min(ids.len()));
+        // 1..4 replaced variables; now and then none at all (the empty map is a set of variables too)
+        let nrep = if t.p(8) {
+            ctx.label("empty-replacement-map");
+            0
+        } else {
+            1 + t.choice(4.min(ids.len()))
+        };
         let cfg = match regime {
             Regime::Dyadic => FuncCfg { regime, allow_unset: true, max_terms: 6, max_degree: 3, ..FuncCfg::default() },
             Regime::General => FuncCfg { regime, allow_unset: true, max_terms: 6, max_degree: 3, ..FuncCfg::default() },
